@@ -403,6 +403,7 @@ func checkC10(c *Check) {
 	// ---- R3
 	c.Rule("R3", "header, body and envelope pass through the queue unmodified: parameters reach the file writer / the downstream target with no intervening store or mutating call; reader and writer use the same file roles; no size-limiting reader on the way back", 8)
 	c10Bytes(c)
+	c10FirstAttempt(c)
 }
 
 type packagesPkg = packagesPackage
@@ -620,6 +621,215 @@ func c10Bytes(c *Check) {
 		}
 		c.Hold("R3", "deliver:meta-copy", r.FI.Decl.Pos(), badStore == "", badStore)
 	}
+}
+
+// c10FirstAttempt: the hand-over of the first attempt. The message accepted by queueDelivery.Body is not re-read
+// from the spool for the first attempt: the in-memory header / stored body / metadata travel
+// Body -> (fields of the delivery) -> Commit -> queueSlot -> dispatch -> tryDelivery -> deliver.
+func c10FirstAttempt(c *Check) {
+	c.Rule("R3f", "the first attempt sees what was accepted: Body keeps the header it was given and the stored body on its success path; Commit puts exactly those (and the metadata) into the slot; dispatch hands the slot's three parts - or, for a slot read from disk, the three results of openMessage - to tryDelivery, which hands its parameters to deliver", 4)
+	hdrT := func(t types.Type) bool { return typeIs(t, "github.com/emersion/go-message/textproto", "Header") }
+	bufT := func(t types.Type) bool { return typeIs(t, modPath+"/framework/buffer", "Buffer") }
+	metaT := func(t types.Type) bool { return typeIs(t, modPath+"/"+queueRel, "QueueMetadata") }
+	// (a) Body
+	if r := c.need("R3f", queueRel, "queueDelivery", "Body"); r != nil {
+		info := r.Info
+		var hdrP types.Object
+		for _, o := range paramObjs(r.FI) {
+			if hdrT(o.Type()) {
+				hdrP = o
+			}
+		}
+		store := calling("~/" + queueRel + ".Queue.storeNewMessage")
+		sites := r.Calls(store)
+		msg := ""
+		if len(sites) != 1 || hdrP == nil {
+			msg = "undecided: expected one storeNewMessage call and a header parameter"
+		} else {
+			as, _ := sites[0].Node().(*ast.AssignStmt)
+			var stored types.Object
+			if as != nil && len(as.Lhs) == 2 {
+				stored = objOf(info, as.Lhs[0])
+			}
+			call := r.CallAt(sites[0], store)
+			keepsHdr := r.Assigns(func(l, rhs ast.Expr) bool {
+				fv := fieldOf(info, l)
+				return fv != nil && hdrT(fv.Type()) && rhs != nil && objOf(info, rhs) == hdrP
+			})
+			keepsBody := r.Assigns(func(l, rhs ast.Expr) bool {
+				fv := fieldOf(info, l)
+				return fv != nil && bufT(fv.Type()) && rhs != nil && stored != nil && objOf(info, rhs) == stored
+			})
+			if stored == nil {
+				msg = "the stored body returned by storeNewMessage is dropped"
+			} else if len(keepsHdr) == 0 || len(keepsBody) == 0 {
+				msg = "Body does not keep the header it was given / the stored body for the first attempt"
+			} else {
+				for _, keep := range [][]Pt{keepsHdr, keepsBody} {
+					if found, w, decided := r.OnErr(sites[0], call, true, r.F.IsNormalExit, isPt(keep)); !decided {
+						msg = "the error of storeNewMessage is dropped"
+					} else if found {
+						msg = "Body can succeed without keeping the header / stored body for the first attempt (it would be delivered empty): " + w
+					}
+				}
+			}
+		}
+		c.Hold("R3f", "queueDelivery.Body:keeps-header-and-body", r.FI.Decl.Pos(), msg == "", msg)
+	}
+	// (b) Commit
+	if r := c.need("R3f", queueRel, "queueDelivery", "Commit"); r != nil {
+		info := r.Info
+		msg := "undecided: no slot literal handed to the wheel"
+		ast.Inspect(r.FI.Decl.Body, func(n ast.Node) bool {
+			cl, ok := n.(*ast.CompositeLit)
+			if !ok {
+				return true
+			}
+			nt := namedOf(info.TypeOf(cl))
+			if nt == nil || objName(nt.Obj()) != "queueSlot" {
+				return true
+			}
+			msg = ""
+			seen := map[string]bool{}
+			for _, el := range cl.Elts {
+				kv, ok := el.(*ast.KeyValueExpr)
+				if !ok {
+					msg = "undecided: positional slot literal"
+					return false
+				}
+				v := ast.Unparen(kv.Value)
+				if u, ok := v.(*ast.UnaryExpr); ok && u.Op == token.AND {
+					v = ast.Unparen(u.X)
+				}
+				fv := fieldOf(info, v)
+				if fv == nil {
+					continue
+				}
+				// a field of the delivery itself (receiver), selected by type
+				if sel, ok := v.(*ast.SelectorExpr); !ok || objOf(info, sel.X) == nil || objOf(info, sel.X) != recvObjOf(r.FI) {
+					continue
+				}
+				switch {
+				case hdrT(fv.Type()):
+					seen["hdr"] = true
+				case bufT(fv.Type()):
+					seen["body"] = true
+				case metaT(fv.Type()):
+					seen["meta"] = true
+				}
+			}
+			if !seen["hdr"] || !seen["body"] || !seen["meta"] {
+				msg = "the slot of the first attempt is not built from the delivery's own header, stored body and metadata"
+			}
+			return false
+		})
+		c.Hold("R3f", "queueDelivery.Commit:slot-carries-the-message", r.FI.Decl.Pos(), msg == "", msg)
+	}
+	// (c) dispatch
+	if r := c.need("R3f", queueRel, "Queue", "dispatch"); r != nil {
+		info := r.Info
+		try := calling("~/" + queueRel + ".Queue.tryDelivery")
+		msg := "undecided: no call of tryDelivery in dispatch"
+		ast.Inspect(r.FI.Decl.Body, func(n ast.Node) bool {
+			fl, ok := n.(*ast.FuncLit)
+			if !ok {
+				return true
+			}
+			lr := &RuleCtx{C: c, FI: r.FI, F: c.P.FlowOf(info, fl.Body, r.FI.Name()+"$attempt"), Info: info}
+			sites := lr.Calls(try)
+			if len(sites) == 0 {
+				return true
+			}
+			msg = ""
+			for _, pt := range sites {
+				call := lr.CallAt(pt, try)
+				if len(call.Args) != 3 {
+					msg = "undecided: tryDelivery shape"
+					continue
+				}
+				// worlds: the slot carries the message (Meta != nil) / it was read from disk (Meta == nil)
+				for _, inMem := range []bool{true, false} {
+					world := lr.F.World(func(atom ast.Expr) (bool, bool) {
+						be, ok := ast.Unparen(atom).(*ast.BinaryExpr)
+						if !ok || (be.Op != token.EQL && be.Op != token.NEQ) {
+							return false, false
+						}
+						fv := fieldOf(info, be.X)
+						if fv == nil || !metaT(fv.Type()) || !isNilIdent(info, be.Y) {
+							return false, false
+						}
+						return (be.Op == token.EQL) == !inMem, true
+					})
+					for ai, a := range call.Args {
+						o := objOf(info, a)
+						if o == nil {
+							msg = "tryDelivery is not handed plain variables"
+							continue
+						}
+						defs, ok := lr.ReachingDefs(o, pt, world)
+						if inMem {
+							if !ok || len(defs) != 1 {
+								msg = "with the message in the slot, argument " + itoa(ai+1) + " of tryDelivery is not uniquely the slot's part"
+								continue
+							}
+							d := ast.Unparen(defs[0])
+							if st, isStar := d.(*ast.StarExpr); isStar {
+								d = ast.Unparen(st.X)
+							}
+							fv := fieldOf(info, d)
+							want := [](func(types.Type) bool){metaT, hdrT, bufT}[ai]
+							if fv == nil || !want(fv.Type()) {
+								msg = "with the message in the slot, argument " + itoa(ai+1) + " of tryDelivery is " + exprStr(defs[0]) + ", not the slot's part (the first attempt would deliver something else than was accepted)"
+							} else if nt := namedOf(info.TypeOf(d.(*ast.SelectorExpr).X)); nt == nil || objName(nt.Obj()) != "queueSlot" {
+								msg = "argument " + itoa(ai+1) + " of tryDelivery does not come from the slot"
+							}
+						} else {
+							// read from disk: a tuple assignment from openMessage (no usable single right-hand side)
+							if ok && len(defs) > 0 {
+								msg = "for a slot read from disk, argument " + itoa(ai+1) + " of tryDelivery is " + exprStr(defs[0]) + ", not a result of openMessage"
+							}
+						}
+					}
+				}
+			}
+			return false
+		})
+		c.Hold("R3f", "Queue.dispatch:hands-over-the-slot", r.FI.Decl.Pos(), msg == "", msg)
+	}
+	// (d) tryDelivery -> deliver
+	if r := c.need("R3f", queueRel, "Queue", "tryDelivery"); r != nil {
+		info := r.Info
+		dlv := calling("~/" + queueRel + ".Queue.deliver")
+		sig := r.FI.Obj.Type().(*types.Signature)
+		msg := ""
+		sites := r.Calls(dlv)
+		if len(sites) != 1 {
+			msg = "undecided: expected one call of deliver"
+		} else {
+			call := r.CallAt(sites[0], dlv)
+			if len(call.Args) != 3 || sig.Params().Len() != 3 {
+				msg = "undecided: deliver shape"
+			} else {
+				for i := 0; i < 3; i++ {
+					p := sig.Params().At(i)
+					if objOf(info, call.Args[i]) != types.Object(p) {
+						msg = "deliver is not handed tryDelivery's own parameter " + p.Name()
+					} else if i > 0 && len(r.F.Find(func(n ast.Node) bool { return assignsObj(info, n, p) })) > 0 {
+						msg = "tryDelivery reassigns " + p.Name() + " before handing it on"
+					}
+				}
+			}
+		}
+		c.Hold("R3f", "Queue.tryDelivery:hands-on-its-parameters", r.FI.Decl.Pos(), msg == "", msg)
+	}
+}
+
+// recvObjOf: the receiver variable of a method declaration.
+func recvObjOf(fi *FuncInfo) types.Object {
+	if fi.Decl.Recv == nil || len(fi.Decl.Recv.List) == 0 || len(fi.Decl.Recv.List[0].Names) == 0 {
+		return nil
+	}
+	return fi.Info().Defs[fi.Decl.Recv.List[0].Names[0]]
 }
 
 func paramObjs(fi *FuncInfo) map[string]types.Object {
